@@ -96,23 +96,48 @@ type Pool struct {
 	Timeout time.Duration // max silence (no progress / result frame) before a worker is declared hung
 	MemMB   int           // RLIMIT_AS of a worker (0 = unlimited)
 	Env     []string
+	// MaxTasks recycles a worker process after that many tasks (0 = never); for harnesses whose
+	// code under test leaks goroutines by design (handlers blocked on a dead peer).
+	MaxTasks int
 }
 
 type tailBuf struct {
-	mu sync.Mutex
-	b  []byte
+	mu   sync.Mutex
+	b    []byte
+	head []byte // the first "fatal error:" / "panic:" report (the goroutine dump after it can be huge)
 }
 
 func (t *tailBuf) Write(p []byte) (int, error) {
 	t.mu.Lock()
 	defer t.mu.Unlock()
+	if t.head == nil {
+		for _, mark := range []string{"fatal error:", "panic:"} {
+			if i := bytes.Index(p, []byte(mark)); i >= 0 {
+				t.head = append([]byte{}, p[i:]...)
+				break
+			}
+		}
+	} else if len(t.head) < 6000 {
+		t.head = append(t.head, p...)
+	}
 	t.b = append(t.b, p...)
 	if len(t.b) > 1<<16 {
 		t.b = t.b[len(t.b)-(1<<15):]
 	}
 	return len(p), nil
 }
-func (t *tailBuf) String() string { t.mu.Lock(); defer t.mu.Unlock(); return string(t.b) }
+func (t *tailBuf) String() string {
+	t.mu.Lock()
+	defer t.mu.Unlock()
+	if t.head != nil {
+		h := t.head
+		if len(h) > 6000 {
+			h = h[:6000]
+		}
+		return string(h)
+	}
+	return string(t.b)
+}
 
 type worker struct {
 	cmd  *exec.Cmd
@@ -234,6 +259,7 @@ func (p *Pool) MapD(tasks [][]byte, decode func(out []byte) interface{}, onResul
 		go func() {
 			defer wg.Done()
 			var w *worker
+			served := 0
 			defer func() {
 				if w != nil {
 					w.kill()
@@ -262,9 +288,11 @@ func (p *Pool) MapD(tasks [][]byte, decode func(out []byte) interface{}, onResul
 					}
 				}
 				out, crash := w.run(t, p.Timeout)
-				if crash != nil {
+				served++
+				if crash != nil || (p.MaxTasks > 0 && served >= p.MaxTasks) {
 					w.kill()
 					w = nil
+					served = 0
 				}
 				var dec interface{}
 				if crash == nil {
